@@ -46,7 +46,7 @@ def gen_case(rng):
         "angles": [ang() for _ in range(int(rng.choice([2, 3, 4, 5, 7, 9, 12])))],
         "six": [float(rng.uniform(-100, 100)) for _ in range(3)] + [ang() for _ in range(3)],
         "ang": ang(),
-        "S": gen.screw_axes(rng, n).tolist(), "theta": rng.uniform(-PI, PI, n).tolist(),
+        "S": gen.screw_axes(rng, n).tolist(), "theta": (lambda t: np.where((np.abs(t) > 0) & (np.abs(t) < 1e-5), 0.0, t))(rng.uniform(-PI, PI, n)).tolist(),      # not inside the exponential's cut-off band
         "Q": None, "Aq": None, "x0": None, "nx": int(rng.integers(1, 5)), "mq": int(rng.integers(1, 4)),
         "h": float(10 ** rng.uniform(-3, -1)),
     }
